@@ -74,6 +74,82 @@ def build():
                   'QUG.in_type_id', 'QUG.in_type_args', 'QUG.in_type_args_real_count', 'QUG.globals', 'QUG.warnings', 'QUG._units', '$alloc'],
         ensures=['has_flag(result[0].capabilities, Cap.TRANSACTION)'],
         raises={'TransactionError': {}, 'CompileError': {}})
+
+    # 9. from the dispatcher's flags to the unit: compiler._make_query_unit builds the QueryUnit with exactly the capabilities the dispatcher derived, and nothing on
+    #    the way to the return (none of the per-query-class branches) rewrites them.  Field lists of the unit / query objects are extracted from the function's AST.
+    mk, _ = repo.find_def(COMP, '_make_query_unit')
+    ufields = sorted({n.attr for n in ast.walk(mk) if isinstance(n, ast.Attribute) and isinstance(n.value, ast.Name) and n.value.id == 'unit'})
+    cfields = sorted({n.attr for n in ast.walk(mk) if isinstance(n, ast.Attribute) and isinstance(n.value, ast.Name) and n.value.id == 'comp'})
+    SEQF = ('config_ops',)
+    for f in ufields:
+        if f not in w.classes['QU']: w.classes['QU'][f] = 'Seq[Obj]' if f in SEQF else 'Obj'
+    for f in cfields:
+        if f not in w.classes['Q']:
+            w.classes['Q'][f] = ('Seq[Obj]' if f in SEQF else 'Opt[Obj]' if f in ('user_schema', 'cached_reflection', 'global_schema', 'modaliases', 'config_op')
+                                 else w.classes['QU'][f] if f in w.classes['QU'] else 'Obj')
+    w.classes['Q']['action'] = 'Obj'
+    w.refclass('Tx', {'id': 'Obj'}); w.refclass('CSt', {})
+    w.ext_methods['CSt.current_tx'] = dict(params={}, returns='Tx')
+    w.ext_methods['Tx.get_user_schema'] = dict(params={}, returns='Obj')
+    w.ext_methods['Tx.is_implicit'] = dict(params={}, returns='bool')
+    w.ext_methods['Tx.get_modaliases'] = dict(params={}, returns='Obj')
+    w.classes['Ctx'].update({'output_format': 'Obj', 'cache_key': 'Obj', 'dump_restore_mode': 'bool', 'state': 'CSt'})
+    w.classes['Ql']['span'] = 'Obj'
+    w.ext_funcs['_get_schema_version'] = dict(params={'s': 'Obj'}, returns='Obj', raises={'InvalidReferenceError': {}})
+    w.ext_funcs['status.get_status'] = dict(params={'q': 'Ql'}, returns='bytes')
+    w.ext_funcs['pickle.dumps'] = dict(params={'o': 'Obj', 'p': 'int'}, returns='Obj')
+    w.ext_funcs['_extract_extensions'] = dict(params={'ctx': 'Ctx', 's': 'Obj'}, returns='Tuple[Obj,Obj]')
+    w.ext_funcs['_extract_roles'] = dict(params={'s': 'Obj'}, returns='Obj')
+    QUF = ['QU.' + f for f in sorted(w.classes['QU'])]
+    w.contract(COMP, '_make_query_unit',
+        params={'ctx': 'Ctx', 'stmt_ctx': 'Ctx', 'stmt': 'Ql', 'is_script': 'bool', 'is_trailing_stmt': 'bool', 'comp': 'Q', 'capabilities': 'flags'},
+        returns='Tuple[QU,Opt[Obj]]', modifies=QUF + ['$alloc'],
+        ensures=['result[0].capabilities == capabilities', 'not old(allocated(result[0]))'],
+        raises={'QueryError': {}, 'InternalServerError': {}, 'InvalidReferenceError': {}},
+        abstract={'if unit.in_type_args:': dict(assigns={}, modifies=['QU.in_type_args_real_count']),
+                  'if unit.warnings:': dict(assigns={}, modifies=[])})
+
+    # 10. from the statements to the group: compiler._try_compile_ast.  For every statement of the block the flags of the returned group contain what the statement's
+    #     class demands (same clauses as the dispatcher's contract, with the group's flags in place of the dispatcher's result; `gq[j]` is the compiled query object
+    #     of statement j -- a ghost sequence appended to right after the dispatcher call).
+    w.ext_methods['Ctx.is_testmode'] = dict(params={}, returns='bool')
+    w.ext_funcs['_check_force_database_error'] = dict(params={'ctx': 'Ctx', 'ql': 'Ql'}, returns='none', raises={'CompileError': {}})
+    w.classes['Ctx'].update({'expected_cardinality_one': 'bool', 'expect_rollback': 'bool', 'compiler_state': 'Obj', 'protocol_version': 'Obj'})
+    w.classes['QUG']['state_serializer'] = 'Obj'
+    w.ext_methods['Tx.get_global_schema'] = dict(params={}, returns='Obj')
+    SJ = lambda c: 'isinstance(statements[j], qlast.%s)' % c
+    QJ = lambda c: 'isinstance(gq[j], dbstate.%s)' % c
+    NOTCTL = 'not %s and not %s and not %s' % (SJ('DDLCommand'), SJ('Transaction'), SJ('SessionCommand'))
+    def COVER(n, caps):
+        cl = ['implies(%s and not %s, has_flag(%s, Cap.DDL))' % (SJ('DDLCommand'), SJ('MigrationCommand'), caps),
+              'implies(%s and (%s or %s), has_flag(%s, Cap.DDL))' % (SJ('MigrationCommand'), QJ('MigrationControlQuery'), QJ('DDLQuery'), caps),
+              'implies(%s and %s and not is_none(gq[j].tx_action), has_flag(%s, Cap.TRANSACTION))' % (SJ('MigrationCommand'), QJ('MigrationControlQuery'), caps),
+              'implies(%s, has_flag(%s, Cap.TRANSACTION))' % (SJ('Transaction'), caps),
+              'implies(%s, has_flag(%s, Cap.SESSION_CONFIG))' % (' or '.join(SJ(c) for c in ('SessionSetAliasDecl', 'SessionResetAliasDecl', 'SessionResetModule', 'SessionResetAllAliases')), caps),
+              'implies(%s and %s and (statements[j].scope == Scope.INSTANCE or statements[j].scope == Scope.DATABASE), has_flag(%s, Cap.PERSISTENT_CONFIG))' % (SJ('ConfigOp'), NOTCTL, caps),
+              'implies(%s and %s and statements[j].scope == Scope.SESSION, has_flag(%s, Cap.SESSION_CONFIG))' % (SJ('ConfigOp'), NOTCTL, caps),
+              'implies(%s and %s and statements[j].scope == Scope.GLOBAL and not ctx.notebook, has_flag(%s, Cap.SESSION_CONFIG))' % (SJ('ConfigOp'), NOTCTL, caps),
+              'implies((%s or %s) and gq[j].has_dml and %s and not %s and not %s, has_flag(%s, Cap.MODIFICATIONS))' % (QJ('Query'), QJ('SimpleQuery'), NOTCTL, SJ('ConfigOp'), SJ('AdministerStmt'), caps)]
+        return ['implies(0 <= K and K < %s, %s)' % (n, c_.replace('[j]', '[K]')) for c_ in cl]      # K: one arbitrary statement index (ghost constant) -- keeps the VCs ground
+    w.contract(COMP, '_try_compile_ast',
+        params={'ctx': 'Ctx', 'statements': 'Seq[Ql]', 'source': 'Obj'}, returns='QUG',
+        ghost={'gq': 'Seq[Q]', 'K': 'int'}, requires=['len(gq) == 0'],
+        modifies=['QUG.' + f for f in sorted(w.classes['QUG'])] + QUF + ['$alloc'],
+        ensures=['len(gq) == len(statements)'] + COVER('len(statements)', 'result.capabilities'),
+        raises={'CompileError': {}, 'ProtocolError': {}, 'TransactionError': {}, 'QueryError': {}, 'InternalServerError': {}, 'InvalidReferenceError': {},
+                'ResultCardinalityMismatchError': {}, 'AssertionError': {}},
+        ghost_after={'comp, capabilities = _compile_dispatch_ql(stmt_ctx, stmt, source=source if not is_script else None, script_info=script_info, in_script=is_script)':
+                     [('gq', 'gq + [comp]')]},
+        loops={0: dict(fingerprint='for (i, stmt) in enumerate(statements)', index='i',
+                       invariant=['len(gq) == i', 'not old(allocated(rv))'] + COVER('i', 'rv.capabilities'))},
+        abstract={'if ctx.is_testmode():': dict(assigns={}, modifies=[]),
+                  'if is_script:': dict(assigns={'script_info': 'Opt[Obj]', 'non_trailing_ctx': 'Ctx'}, modifies=['$alloc'], raises=['TransactionError', 'CompileError'],
+                                        ensures=['non_trailing_ctx.notebook == ctx.notebook']),
+                  'if script_info:': dict(assigns={}, modifies=['QUG.in_type_id', 'QUG.in_type_args', 'QUG.in_type_data'], raises=['QueryError', 'CompileError']),
+                  'for unit in rv:': dict(assigns={'unit': 'QU'}, modifies=[], raises=['InternalServerError']),
+                  'multi_card = rv.cardinality in (enums.Cardinality.MANY, enums.Cardinality.AT_LEAST_ONE)': dict(assigns={'multi_card': 'bool'}, modifies=[]),
+                  'if multi_card and ctx.expected_cardinality_one:': dict(assigns={}, modifies=[], raises=['ResultCardinalityMismatchError'])},
+        hints={'ghost_out': ['gq']})
     w._caps = caps
     return w
 
